@@ -417,7 +417,7 @@ def source_side(ck, d):
 def memory_side(ck, d):
     """identity-level correspondence of MemorySpace::add_photons with the model's append_active: no packet lost or duplicated on overflow"""
     ok2, log2 = vf.ocaml_build(d, ["c01_model"], os.path.join(vf.VERIF, "ocaml/c01_mem_driver.ml"), "memmodel")
-    ok3, log3 = vf.cxx_build(os.path.join(vf.VERIF, "harness/c01/memspace_harness.cpp"), os.path.join(d, "memimpl"), openmp=False)
+    ok3, log3 = vf.cxx_build(os.path.join(vf.VERIF, "harness/c01/memspace_harness.cpp"), os.path.join(d, "memimpl"), openmp=False, extra=["-Wl,--no-as-needed", "-lmpi_cxx", "-lmpi"])
     if not (ok2 and ok3):
         ck.breaks.append("add_photons model/harness does not build:\n" + (log2 + log3)[-1500:])
         return 0
